@@ -233,7 +233,7 @@ def lib_like_array_values(pats, w, low_only=True, bad_merge=True):
     """What the library's expansion yields when it has the known defects (for the
     SYMPTOM test only).  low_only: each pattern is expanded below the most
     significant set bit of its mask only (F14a); bad_merge: the per-pattern runs,
-    sorted by start, are merged pairwise taking the SECOND run's end (F29).
+    sorted by start, are merged pairwise taking the SECOND run's end (F34).
     -> (ascending values, high_bits_active, overlap_truncated)"""
     runs = []
     high = False
